@@ -848,7 +848,75 @@ func (g *c09Gen) directedTwin(name string) {
 	}
 }
 
+// directedReorg: epoch 4, validators k0..k2, client created at height 4; branch A = 5 (k1), 6 (k0); upgrade to ANOTHER
+// header at height 4 (other root); branch B = 5 (k1), 6 (k2), 7 (k0) with other roots over the occupied heights 5, 6.
+func (g *c09Gen) directedReorg() {
+	var ops []string
+	emit := func(op string) string {
+		ops = append(ops, op)
+		return g.emit(op)
+	}
+	k := g.directedKeys(9)
+	emit("reset")
+	g.chainID, g.epoch, g.tp, g.oldTime, g.fresh, g.handover = 56, 4, 999_999_999, false, false, false
+	vals := k[:3]
+	zero := make([]byte, 32)
+	mkHead := func(tag byte) *bsctypes.Header {
+		extra := make([]byte, 32)
+		for _, a := range vals {
+			extra = append(extra, a.Bytes()...)
+		}
+		extra = append(extra, make([]byte, 65)...)
+		h := &bsctypes.Header{
+			Height: clienttypes.NewHeight(0, 4), ParentHash: zero, UncleHash: c09UncleHash.Bytes(), Coinbase: k[0].Bytes(),
+			Root: crypto.Keccak256([]byte{tag, 4}), TxHash: zero, ReceiptHash: zero, Difficulty: []byte{2}, GasLimit: 30_000_000, GasUsed: 21000, Time: 100,
+			Extra: extra, MixDigest: zero, Nonce: make([]byte, 8),
+		}
+		g.seal(h, k[0])
+		return h
+	}
+	block := func(tag byte, signer common.Address, bt uint64) string {
+		g.w.sel(0)
+		cs := g.w.clientState(g.w.ctx)
+		num := cs.Header.Height.RevisionHeight + 1
+		ex := make([]byte, 32)
+		if num%4 == 0 {
+			for _, a := range vals {
+				ex = append(ex, a.Bytes()...)
+			}
+		}
+		ex = append(ex, make([]byte, 65)...)
+		h := &bsctypes.Header{
+			Height: clienttypes.NewHeight(0, num), ParentHash: cs.Header.Hash().Bytes(), UncleHash: c09UncleHash.Bytes(), Coinbase: signer.Bytes(),
+			Root: crypto.Keccak256([]byte{tag, byte(num)}), TxHash: zero, ReceiptHash: zero, Difficulty: []byte{1}, GasLimit: 30_000_000, GasUsed: 21000,
+			Time: bt, Extra: ex, MixDigest: zero, Nonce: make([]byte, 8),
+		}
+		if c09InTurn(cs, signer) {
+			h.Difficulty = []byte{2}
+		}
+		g.seal(h, signer)
+		return emit(c09UpdateOp(bt, 56, h))
+	}
+	emit(c09CreateOp(56, 4, g.tp, 100, c09AddrBytes(vals), mkHead('A')))
+	block('A', k[1], 103)
+	block('A', k[0], 106)
+	emit(c09UpgradeOp(56, 4, g.tp, 109, c09AddrBytes(vals), mkHead('B')))
+	block('B', k[1], 112)
+	block('B', k[2], 115)
+	last := block('B', k[0], 118)
+	if strings.HasPrefix(last, "ok") {
+		g.r.Count("directed.reorg.last-accepted")
+	} else {
+		g.r.Count("directed.reorg.last-rejected")
+	}
+	emit("cons")
+	if d := os.Getenv("VERIF_C09_WRITE_CORPUS"); d != "" {
+		_ = os.WriteFile(filepath.Join(d, "reorg.ops"), []byte("# C09 directed history: reorg (see harness/c09_gen_test.go)\n"+strings.Join(ops[1:], "\n")+"\n"), 0o644)
+	}
+}
+
 func (g *c09Gen) allDirected() {
+	g.directedReorg()
 	g.directedTwin("twin-seen")
 	g.directedTwin("twin-dry")
 	g.directedTwin("twin-forgery-first")
@@ -1113,6 +1181,183 @@ func (g *c09Gen) twin(n0 int, epoch uint64, startK uint64, steps int) {
 	g.emit("cons@1")
 }
 
+// ---- reorg histories: the client follows branch A, governance upgrades it back to an epoch header at or below
+// heights it already tracks (same branch or ANOTHER branch), the relayer feeds branch B over the occupied heights.
+// UpgradeState resets head / recents / pending validators but keeps the unexpired consensus states, so every
+// branch-B header lands on a height that already has a consensus state with branch A's root.
+
+// nextValid builds the valid next header for client 0 from the prescribed set (eligible signer, right turn).
+func (g *c09Gen) nextValid() (*bsctypes.Header, bool) {
+	r := g.r
+	g.w.sel(0)
+	cs0 := g.w.clientState(g.w.ctx)
+	if cs0 == nil {
+		return nil, false
+	}
+	pcs := *cs0
+	pcs.Validators = g.w.presVals
+	cs := &pcs
+	set := c09Sorted(c09Distinct(cs.Validators))
+	n := len(set)
+	if n == 0 {
+		return nil, false
+	}
+	num := cs.Header.Height.RevisionHeight + 1
+	var cur []common.Address
+	for _, v := range cs.Validators {
+		cur = append(cur, common.BytesToAddress(v))
+	}
+	next := cur
+	if num%g.epoch == 0 {
+		next = g.nextSet(cur)
+	}
+	var elig []common.Address
+	for _, a := range set {
+		rec := false
+		for d := uint64(1); d <= uint64(n/2) && d <= num; d++ {
+			if who, ok := g.w.sealedBy[num-d]; ok && who == a {
+				rec = true
+			}
+		}
+		if _, ok := g.keyOf[a]; ok && !rec {
+			elig = append(elig, a)
+		}
+	}
+	if len(elig) == 0 {
+		return nil, false
+	}
+	signer := elig[r.Rng.Intn(len(elig))]
+	if it := set[num%uint64(n)]; r.Rng.Intn(3) > 0 {
+		for _, a := range elig {
+			if a == it {
+				signer = it
+			}
+		}
+	}
+	h := g.build(cs, signer, next)
+	g.seal(h, signer)
+	return h, true
+}
+
+func c09UpgradeOp(chainID, epoch, tp, bt uint64, vals [][]byte, h *bsctypes.Header) string {
+	return "upgrade" + c09CreateOp(chainID, epoch, tp, bt, vals, h)[len("create"):]
+}
+
+func (g *c09Gen) reorg(n0 int, epoch uint64, startK uint64) {
+	r := g.r
+	g.emit("reset")
+	g.chainID = []uint64{56, 97, 1, 714}[r.Rng.Intn(4)]
+	g.tp = 999_999_999
+	if r.Rng.Intn(5) == 0 {
+		g.tp = uint64(20 + r.Rng.Intn(60)) // consensus states of branch A expire while branch B is fed
+	}
+	g.epoch, g.btStep, g.oldTime, g.fresh, g.handover = epoch, 3, false, false, false
+	g.bt = 1_700_000_000
+	vals := g.subset(n0)
+	mkHead := func(num uint64, vs []common.Address) *bsctypes.Header {
+		extra := g.rnd(32)
+		for _, a := range vs {
+			extra = append(extra, a.Bytes()...)
+		}
+		extra = append(extra, make([]byte, 65)...)
+		sealer := vs[r.Rng.Intn(len(vs))]
+		h := &bsctypes.Header{
+			Height: clienttypes.NewHeight(0, num), ParentHash: g.rnd(32), UncleHash: c09UncleHash.Bytes(), Coinbase: sealer.Bytes(),
+			Root: g.rnd(32), TxHash: g.rnd(32), ReceiptHash: g.rnd(32), Difficulty: []byte{2}, GasLimit: 30_000_000, GasUsed: 21000, Time: g.bt - 5,
+			Extra: extra, MixDigest: make([]byte, 32), Nonce: make([]byte, 8),
+		}
+		g.seal(h, sealer)
+		return h
+	}
+	start := startK * epoch
+	head0 := mkHead(start, vals)
+	if !strings.HasPrefix(g.emit(c09CreateOp(g.chainID, g.epoch, g.tp, g.bt, c09AddrBytes(vals), head0)), "ok") {
+		return
+	}
+	r.Count("reorg.histories")
+	feed := func(k int) int {
+		done := 0
+		for i := 0; i < k; i++ {
+			g.bt += 3
+			h, ok := g.nextValid()
+			if !ok {
+				break
+			}
+			if !strings.HasPrefix(g.emit(c09UpdateOp(g.bt, g.chainID, h)), "ok") {
+				r.Count("reorg.valid-refused")
+				break
+			}
+			done++
+		}
+		return done
+	}
+	feed(int(epoch) + 1 + r.Rng.Intn(int(epoch)+3))
+	rounds := 1 + r.Rng.Intn(2)
+	for round := 0; round < rounds; round++ {
+		g.w.sel(0)
+		cs := g.w.clientState(g.w.ctx)
+		if cs == nil {
+			return
+		}
+		headNum := cs.Header.Height.RevisionHeight
+		var cur []common.Address
+		for _, v := range g.w.presVals {
+			cur = append(cur, common.BytesToAddress(v))
+		}
+		if len(cur) == 0 {
+			return
+		}
+		// candidate epoch heights at or below the head
+		var cands []uint64
+		for u := start; u <= headNum; u += epoch {
+			cands = append(cands, u)
+		}
+		if start >= epoch && r.Rng.Intn(4) == 0 {
+			cands = append(cands, start-epoch) // below everything tracked
+		}
+		u := cands[r.Rng.Intn(len(cands))]
+		var nh *bsctypes.Header
+		nvals := cur
+		kind := "other-branch"
+		if old, ok := g.w.accepted[u]; ok && r.Rng.Intn(3) == 0 {
+			nh, kind = old, "same-branch"
+			if u == start {
+				nvals = vals
+			}
+		} else {
+			nh = mkHead(u, cur)
+		}
+		g.bt += 3
+		// rejected variants first: not an epoch height / seal broken
+		if r.Rng.Intn(3) == 0 {
+			bad := *nh
+			bad.Extra = append([]byte{}, nh.Extra...)
+			bad.Extra[len(bad.Extra)-10] ^= 0x40
+			if strings.HasPrefix(g.emit(c09UpgradeOp(g.chainID, g.epoch, g.tp, g.bt, c09AddrBytes(nvals), &bad)), "ok") {
+				r.Count("reorg.upgrade.bad-seal.accepted")
+				return
+			}
+			r.Count("reorg.upgrade.bad-seal.rejected")
+		}
+		if !strings.HasPrefix(g.emit(c09UpgradeOp(g.chainID, g.epoch, g.tp, g.bt, c09AddrBytes(nvals), nh)), "ok") {
+			r.Count("reorg.upgrade.refused")
+			return
+		}
+		r.Count("reorg.upgrade." + kind)
+		r.Nontrivial(fmt.Sprintf("reorg %s u-start=%d head-u=%d n=%d", kind, int64(u)-int64(start), headNum-u+0, len(cur)))
+		// branch B: over every occupied height and a little beyond
+		feed(int(headNum-minU64(u, headNum)) + 2 + r.Rng.Intn(4))
+	}
+	g.emit("cons")
+}
+
+func minU64(a, b uint64) uint64 {
+	if a < b {
+		return a
+	}
+	return b
+}
+
 func c09Epochs(r *Rec) uint64 {
 	return []uint64{2, 3, 4, 5, 7, 10, 11, 12, 16, 20, 30, 50, 100, 200}[r.Rng.Intn(14)]
 }
@@ -1200,6 +1445,9 @@ func TestC09(t *testing.T) {
 			}
 		}
 		g.history(p)
+		if i%5 == 1 { // reorganisation repaired by an upgrade, branch B over occupied heights
+			g.reorg([]int{1, 2, 3, 4, 5, 7}[r.Rng.Intn(6)], uint64(3+r.Rng.Intn(6)), uint64(1+r.Rng.Intn(20)))
+		}
 		if i%4 == 0 { // two clients of one chain, discarded executions, re-sealed copies
 			n0 := []int{1, 2, 3, 4, 7, 21}[r.Rng.Intn(6)]
 			g.twin(n0, []uint64{3, 5, 8, 50, 200}[r.Rng.Intn(5)], uint64(1+r.Rng.Intn(30)), 6+r.Rng.Intn(14))
